@@ -161,6 +161,8 @@ def cases(tier, rng):
         if rng.random() < 0.5: put(pc.mutate(rng, t, 1), "mutated", True)
         if rng.random() < 0.3: put(" " + t + "  ", "padded", True)
     for s in pc.FLOAT_EDGE: put(s, "float-edge", False)
+    for s in pc.EXPONENT_LIKE: put(s, "exponent-like", True)
+    for s in ("\u0428\u0443\u0440\u0430", "\u0422\u0443\u043b\u0430", "\u65e5\u672c", "\u0429\u0438", "\u015ba", "\u042c\u0445", "a\u672cb", "\u0428", "\u672c"): put(s, "low-byte-punctuation", True)
     # beyond the small texts: deep terms (depth 4-6), long lists and argument lists, long and non-ASCII atoms, texts that bring a
     # context close to (and over) the 1000-character limit of complex terms
     for _ in range(120 if tier == "quick" else 3000):
